@@ -646,7 +646,15 @@ pub fn special_spelling(r: &mut Rng) -> String {
 }
 
 pub fn malformed(r: &mut Rng) -> String {
-    match r.below(9) {
+    match r.below(10) {
+        9 => { // a special-value name behind something that is not a sign, or behind two signs
+            let base = *r.pick(&["inf", "infinity", "nan", "snan"]);
+            let pre = *r.pick(&["0", "1", "9", ".", "++", "--", "+-", "1.", "e", "x", "\u{f1}", "+0", "-."]);
+            let mut s = String::from(pre);
+            for ch in base.chars() { s.push(if r.chance(1, 2) { ch.to_ascii_uppercase() } else { ch }); }
+            if r.chance(1, 3) { s.push(*r.pick(&['x', '1', 'e', ' '])); }
+            s
+        }
         0 => { // truncation of a valid literal
             let l = literal(r);
             let cut = r.below(l.len() as u64 + 1) as usize;
